@@ -99,9 +99,10 @@ def match_finding(findings, prop, sig):
     for f in findings.get('findings', []):
         if f.get('status') != 'open' or f.get('property') != prop:
             continue
-        pat = f.get('signature', '')
-        if sig == pat or fnmatch.fnmatchcase(sig, pat):
-            return f
+        pats = f.get('signatures') or [f.get('signature', '')]
+        for pat in pats:
+            if sig == pat or fnmatch.fnmatchcase(sig, pat):
+                return f
     return None
 
 
@@ -204,7 +205,7 @@ def main(argv):
     for v in violations:
         f = match_finding(findings, prop, v.get('sig', ''))
         if f is not None:
-            known_hit.setdefault(f['signature'], [f, 0])[1] += 1
+            known_hit.setdefault(f.get('signature') or f.get('id', 'finding'), [f, 0])[1] += 1
         else:
             new.append(v)
     exit_code = 0
